@@ -271,6 +271,8 @@ def menu():
     # sizes: one page cited by 600 sources in one batch, while another batch touches that page
     m["crawlBig"] = Participant("crawlBig", lambda t: t.index_batch_crawl_iter({Az + b"p:%03d|" % i: [Ab] for i in range(600)}, 1))
     m["crawlT"] = Participant("crawlT", lambda t: t.index_batch_crawl_iter({Ab: [Ab + b"p:new|", Az], Az: [Ab]}, 1))
+    # one source citing 1 100 targets (thorough tier only: 1 100 yield points)
+    m["crawlWide"] = Participant("crawlWide", lambda t: t.index_batch_crawl_iter({Ab: [Ab + b"p:t%04d|" % i for i in range(1100)]}, 1))
     m["rule"] = Participant("rule", lambda t: t.add_webentity_creation_rule_iter(A, R["path1"]))
     m["rule2"] = Participant("rule2", lambda t: t.add_webentity_creation_rule_iter(Ab, R["path2"]))
     # plain requests interleaved at the yield points of the generators (one step each)
@@ -372,6 +374,8 @@ def combos(tier):
         (("crawlA", "createX", "pages1"), 2, 4),
         (("crawlB", "pageX", "net"), 2, 3),
     ]
+    if thorough:
+        pairs = pairs + [(("crawlWide", "linksX"), U, U)]
     out = []
     # quick: everything on the file back-end (the production path), the memory back-end for the
     # write/write combinations and two triples; thorough: everything on both
@@ -470,6 +474,7 @@ def _work(args):
     backend, names, bound, shard = args
     try:
         parts, cfg, base = _setup(backend, names)
+        engine_s.run_schedule.horizon = 2600 if "crawlWide" in names else None
         twin = sequential_twin(cfg, base, parts)
         kw = {}
         if shard == "root":
@@ -490,6 +495,7 @@ def shard_tasks(tasks, nshards=6):
     out = []
     for backend, names, bound in tasks:
         parts, cfg, base = _setup(backend, names)
+        engine_s.run_schedule.horizon = 2600 if "crawlWide" in names else None
         kids = engine_s.root_children(cfg, base, parts, bound)
         out.append((backend, names, bound, "root"))
         groups = [kids[i::nshards] for i in range(nshards)]
@@ -572,6 +578,7 @@ def replay(doc):
     env.patch_always_yield()
     m = menu()
     parts = [m[n] for n in doc["participants"]]
+    engine_s.run_schedule.horizon = 2600 if "crawlWide" in doc["participants"] else None
     cfg = Cfg("domain", backend=doc["backend"])
     base = base_history()
     twin = sequential_twin(cfg, base, parts)
